@@ -101,40 +101,54 @@ pub assume_specification [crate::iri::Path::is_empty] (p: &crate::iri::Path) -> 
 pub assume_specification [crate::iri::Path::is_relative] (p: &crate::iri::Path) -> (r: bool)
     ensures r == !p_is_abs(bytes_of(p));
 
-// Path::is_absolute / normalized_segments and the facade iterator wrapping NormalizedSegmentsImpl (proved, C09/C12)
+// Path::is_absolute / segments / normalized_segments and the facade iterators wrapping SegmentsImpl / NormalizedSegmentsImpl
+// (both proved in common/: C12, C09). One ghost view for every iterator type: the texts of the items still to come.
 #[verifier::external_type_specification]
 #[verifier::external_body]
 pub struct ExUriNormalizedSegments<'a>(crate::uri::NormalizedSegments<'a>);
 #[verifier::external_type_specification]
 #[verifier::external_body]
 pub struct ExIriNormalizedSegments<'a>(crate::iri::NormalizedSegments<'a>);
-/// texts of the segments a facade normalized-segment iterator still has to yield
-pub uninterp spec fn nsu_rest<'a>(it: &crate::uri::NormalizedSegments<'a>) -> Seq<&'a crate::uri::Segment>;
-pub uninterp spec fn nsi_rest<'a>(it: &crate::iri::NormalizedSegments<'a>) -> Seq<&'a crate::iri::Segment>;
+#[verifier::external_type_specification]
+#[verifier::external_body]
+pub struct ExUriSegments<'a>(crate::uri::Segments<'a>);
+#[verifier::external_type_specification]
+#[verifier::external_body]
+pub struct ExIriSegments<'a>(crate::iri::Segments<'a>);
+/// texts of the items an iterator still has to yield (uninterpreted; pinned by the contracts of the constructors and of next)
+pub uninterp spec fn it_texts<I>(it: &I) -> Seq<Seq<u8>>;
 pub assume_specification [crate::uri::Path::is_absolute] (p: &crate::uri::Path) -> (r: bool)
     ensures r == p_is_abs(bytes_of(p));
 pub assume_specification [crate::iri::Path::is_absolute] (p: &crate::iri::Path) -> (r: bool)
     ensures r == p_is_abs(bytes_of(p));
 pub assume_specification<'a> [crate::uri::Path::normalized_segments] (p: &'a crate::uri::Path) -> (r: crate::uri::NormalizedSegments<'a>)
-    ensures path_shape(bytes_of(p)) ==> texts(nsu_rest(&r)) == norm_segs(bytes_of(p));
-pub assume_specification<'a> [crate::iri::Path::normalized_segments] (p: &'a crate::iri::Path) -> (r: crate::iri::NormalizedSegments<'a>)
-    ensures path_shape(bytes_of(p)) ==> texts(nsi_rest(&r)) == norm_segs(bytes_of(p));
+    ensures path_shape(bytes_of(p)) ==> it_texts(&r) == norm_segs(bytes_of(p));
+pub assume_specification<'a> [crate::uri::Path::segments] (p: &'a crate::uri::Path) -> (r: crate::uri::Segments<'a>)
+    ensures path_shape(bytes_of(p)) ==> it_texts(&r) == segs(bytes_of(p));
 pub assume_specification<'a> [<crate::uri::NormalizedSegments<'a> as Iterator>::next] (it: &mut crate::uri::NormalizedSegments<'a>) -> (r: Option<&'a crate::uri::Segment>)
     ensures
-        nsu_rest(old(it)).len() > 0 ==> r == Some(nsu_rest(old(it))[0]) && nsu_rest(final(it)) == nsu_rest(old(it)).drop_first(),
-        nsu_rest(old(it)).len() == 0 ==> r is None && nsu_rest(final(it)) == nsu_rest(old(it));
+        it_texts(old(it)).len() > 0 ==> r is Some && bytes_of(r.unwrap()) == it_texts(old(it))[0] && it_texts(final(it)) == it_texts(old(it)).drop_first(),
+        it_texts(old(it)).len() == 0 ==> r is None && it_texts(final(it)) == it_texts(old(it));
+pub assume_specification<'a> [<crate::uri::Segments<'a> as Iterator>::next] (it: &mut crate::uri::Segments<'a>) -> (r: Option<<crate::uri::Segments<'a> as Iterator>::Item>)
+    ensures
+        it_texts(old(it)).len() > 0 ==> r is Some && bytes_of(r.unwrap()) == it_texts(old(it))[0] && it_texts(final(it)) == it_texts(old(it)).drop_first(),
+        it_texts(old(it)).len() == 0 ==> r is None && it_texts(final(it)) == it_texts(old(it));
+pub assume_specification<'a> [crate::iri::Path::normalized_segments] (p: &'a crate::iri::Path) -> (r: crate::iri::NormalizedSegments<'a>)
+    ensures path_shape(bytes_of(p)) ==> it_texts(&r) == norm_segs(bytes_of(p));
+pub assume_specification<'a> [crate::iri::Path::segments] (p: &'a crate::iri::Path) -> (r: crate::iri::Segments<'a>)
+    ensures path_shape(bytes_of(p)) ==> it_texts(&r) == segs(bytes_of(p));
 pub assume_specification<'a> [<crate::iri::NormalizedSegments<'a> as Iterator>::next] (it: &mut crate::iri::NormalizedSegments<'a>) -> (r: Option<&'a crate::iri::Segment>)
     ensures
-        nsi_rest(old(it)).len() > 0 ==> r == Some(nsi_rest(old(it))[0]) && nsi_rest(final(it)) == nsi_rest(old(it)).drop_first(),
-        nsi_rest(old(it)).len() == 0 ==> r is None && nsi_rest(final(it)) == nsi_rest(old(it));
+        it_texts(old(it)).len() > 0 ==> r is Some && bytes_of(r.unwrap()) == it_texts(old(it))[0] && it_texts(final(it)) == it_texts(old(it)).drop_first(),
+        it_texts(old(it)).len() == 0 ==> r is None && it_texts(final(it)) == it_texts(old(it));
+pub assume_specification<'a> [<crate::iri::Segments<'a> as Iterator>::next] (it: &mut crate::iri::Segments<'a>) -> (r: Option<<crate::iri::Segments<'a> as Iterator>::Item>)
+    ensures
+        it_texts(old(it)).len() > 0 ==> r is Some && bytes_of(r.unwrap()) == it_texts(old(it))[0] && it_texts(final(it)) == it_texts(old(it)).drop_first(),
+        it_texts(old(it)).len() == 0 ==> r is None && it_texts(final(it)) == it_texts(old(it));
 // std: ExactSizeIterator::len (a PROVIDED trait method: Verus accepts no assume_specification for it). R24: in the twins
-// `it.len()` on a facade normalized-segment iterator is replaced by a call of these wrappers, whose bodies are that call.
+// `it.len()` on an exact-size iterator is replaced by a call of this wrapper, whose body is that call.
 #[verifier::external_body]
-pub fn nsu_len<'a>(it: &crate::uri::NormalizedSegments<'a>) -> (r: usize)
-    ensures r == nsu_rest(it).len(),
-{ it.len() }
-#[verifier::external_body]
-pub fn nsi_len<'a>(it: &crate::iri::NormalizedSegments<'a>) -> (r: usize)
-    ensures r == nsi_rest(it).len(),
+pub fn exact_len<I: ExactSizeIterator>(it: &I) -> (r: usize)
+    ensures r == it_texts(it).len(),
 { it.len() }
 } // verus!
